@@ -530,61 +530,69 @@ def gen_goal_set(rng, n, keep_soft, n_prios=None, allow_vector=True, allow_crit=
             tform = "s"
             if point is None and rng.random() < 0.5:
                 tform = "ts"
+            if point is None and kt is not None and max(kt.cur_min) > min(kt.cur_max):
+                tform = "ts"  # no constant fits the running per-step intervals
             elif size > 1 and rng.random() < 0.6:
                 tform = "v"
             if tform == "ts" and size > 1 and rng.random() < 0.3:
                 ncols = 1
             mins, maxs = [], []
+
+            def pick_pair(km, kM, lo_c, hi_c):
+                a_ = max(km, lo_c + 1.0, -8.0)
+                b_ = min(kM, hi_c - 1.0, 8.0)
+                if a_ > b_:  # the running interval left the comfortable zone: stay inside it
+                    a_ = max(km, lo_c + 0.5)
+                    b_ = min(kM, hi_c - 0.5)
+                tm_ = _grid_val(rng, a_, b_)
+                tM_ = _grid_val(rng, tm_, b_)
+                if not allow_equal and tM_ == tm_:
+                    if tm_ + 1.0 <= b_:
+                        tM_ = tm_ + 1.0
+                    elif tm_ - 1.0 >= a_:
+                        tm_ = tm_ - 1.0
+                return tm_, tM_
+
             for c in range(ncols):
-                cmin, cmax = [], []
                 lo_c = max(lo) if ncols == 1 and size > 1 else (lo[0] if len(lo) == 1 else lo[c])
                 hi_c = min(hi) if ncols == 1 and size > 1 else (hi[0] if len(hi) == 1 else hi[c])
-                const = tform != "ts"
-                base_min = base_max = None
-                for i in range(nsteps):
-                    km = kt.cur_min[i] if kt else -INF
-                    kM = kt.cur_max[i] if kt else INF
-                    a = max(km, lo_c + 1.0, -8.0)
-                    b = min(kM, hi_c - 1.0, 8.0)
-                    if a > b:  # running interval left the comfortable zone: stay inside it
-                        a = max(km, lo_c + 0.5)
-                        b = min(kM, hi_c - 0.5)
-                    if const and i > 0:
-                        tm, tM = base_min, base_max
-                    else:
-                        tm = _grid_val(rng, a, b)
-                        tM = _grid_val(rng, tm, b)
-                        if not allow_equal and tM == tm:
-                            tM = min(b, tm + 1.0)
-                            if tM == tm:
-                                tm = max(a, tm - 1.0)
-                        base_min, base_max = tm, tM
-                    cmin.append(tm)
-                    cmax.append(tM)
-                if const and kt is not None:
-                    # a scalar target must respect the running interval at every step
-                    cm = max([kt.cur_min[i] for i in range(nsteps)] + [cmin[0]])
-                    cM = min([kt.cur_max[i] for i in range(nsteps)] + [cmax[0]])
-                    if cm > cM:
-                        cm = cM
-                    cmin = [cm] * nsteps
-                    cmax = [max(cM, cm)] * nsteps
-                    if not allow_equal and cmin[0] == cmax[0]:
-                        kind = rng.choice(["tmin", "tmax"])
+                if tform != "ts":
+                    km = max(kt.cur_min) if kt else -INF
+                    kM = min(kt.cur_max) if kt else INF
+                    tm, tM = pick_pair(km, kM, lo_c, hi_c)
+                    cmin, cmax = [tm] * nsteps, [tM] * nsteps
+                else:
+                    cmin, cmax = [], []
+                    for i in range(nsteps):
+                        tm, tM = pick_pair(kt.cur_min[i] if kt else -INF, kt.cur_max[i] if kt else INF, lo_c, hi_c)
+                        cmin.append(tm)
+                        cmax.append(tM)
                 mins.append(cmin)
                 maxs.append(cmax)
+            if not allow_equal and kind == "both":
+                if tform != "ts":
+                    if any(mins[c][0] == maxs[c][0] for c in range(ncols)):
+                        kind = rng.choice(["tmin", "tmax"])
+                else:
+                    for c in range(ncols):
+                        for i in range(nsteps):
+                            if mins[c][i] == maxs[c][i]:
+                                if rng.random() < 0.5:
+                                    mins[c][i] = NAN
+                                else:
+                                    maxs[c][i] = NAN
             if tform == "ts" and gaps:
                 for c in range(ncols):
                     for i in range(nsteps):
                         r = rng.random()
                         if r < 0.2:
                             mins[c][i] = NAN
-                        elif r < 0.25:
+                        elif r < 0.25 and (kt is None or kt.cur_min[i] == -INF):
                             mins[c][i] = -INF
                         r = rng.random()
                         if r < 0.2:
                             maxs[c][i] = NAN
-                        elif r < 0.25:
+                        elif r < 0.25 and (kt is None or kt.cur_max[i] == INF):
                             maxs[c][i] = INF
                 # keep at least one finite entry most of the time (otherwise the goal is empty)
                 if rng.random() < 0.9:
